@@ -79,7 +79,10 @@ def run(tier):
 
     def model_runs(d):
         out = ec.catalogue_model_runs(d, tier, shapes=fshapes, ops=1, kinds=('rerun', 'skip'), tag='_r1', liveness_for=(),
-                                      only=(None if tier == 'thorough' else small + ('items3_c0_err1', 'nested_join_inner_uncreated_err', 'diamond_j1_berr', 'rev_diamond_err', 'rev_two_roots')),
+                                      # (items_pair_join with a rerun budget does not finish within the TLC time limit: left out of both tiers)
+                                      only=small + ('items3_c0_err1', 'nested_join_inner_uncreated_err', 'diamond_j1_berr', 'rev_diamond_err', 'rev_two_roots') +
+                                      (('diamond_j-1_cerr', 'diamond_j1_cerr', 'diamond_j1_aerr', 'diamond_j2_berr', 'diamond_j2_aerr', 'diamond_errroute', 'items3_c1_err1',
+                                        'items3_c2_err1', 'items2_c3_err1', 'retry2_plain_err_d1', 'retry2_join_err_d0', 'retry2_join_err_d1') if tier == 'thorough' else ()),
                                       schedulers=('default', 'legacy'))
         out += ec.catalogue_model_runs(d, tier, shapes=fshapes, ops=2, kinds=('rerun', 'skip'), tag='_r2', liveness_for=(),
                                        only=('linear_handled', 'items2_c1_err1', 'diamond_j-1_aerr') if tier == 'quick' else small)
